@@ -53,6 +53,9 @@ func Module(rt *rapid.T, cfg Cfg) (*am.Module, map[string]int) {
 	g.blockAddrGlobal()
 	g.gepGlobals()
 	g.metadata()
+	if g.cfg.DebugInfo && g.chance("debuginfo", 3, 4) {
+		g.debugInfo()
+	}
 	g.order()
 	for _, d := range g.M.U.Defs {
 		if typeMentions(d.Fields, map[string]bool{}, g.M.U, d.Name) {
